@@ -55,7 +55,7 @@ theorem prAtoms_plain_pos (hM : M.Compatible G) (hG : G.WF) (σ σ' : Val) (vs :
     (h : ∀ v ∈ vs, v.PlainIn G.nodes) : 0 < M.prAtoms G (vs.map (Var.atom σ σ')) := by
   by_cases hne : vs = []
   · subst hne; simp [prAtoms]
-  · rw [prAtoms_world hM hG σ σ' [] (by simp) vs hne (fun v hv => by rw [(h v hv).1]; exact ⟨rfl, rfl⟩)]
+  · rw [prAtoms_world hM hG σ σ' [] (by simp) vs hne (fun v hv => by rw [(h v hv).1]; exact ⟨rfl, by simp [Var.plain]⟩)]
     exact F_pos hM _ _ _
 
 mutual
